@@ -55,6 +55,29 @@ func chainConfig(fork int) *params.ChainConfig {
 
 var configs = []*params.ChainConfig{chainConfig(0), chainConfig(1), chainConfig(2)}
 
+// rule sets before Cancun, used only by the Go-side SSTORE oracle (they are not in the Coq
+// specification): level -3 Berlin, -2 London, -1 Shanghai
+func legacyConfig(level int) *params.ChainConfig {
+	z := func() *big.Int { return new(big.Int) }
+	c := &params.ChainConfig{
+		ChainID:        big.NewInt(1),
+		HomesteadBlock: z(), EIP150Block: z(), EIP155Block: z(), EIP158Block: z(), ByzantiumBlock: z(),
+		ConstantinopleBlock: z(), PetersburgBlock: z(), IstanbulBlock: z(), MuirGlacierBlock: z(), BerlinBlock: z(),
+	}
+	if level >= -2 {
+		c.LondonBlock = z()
+	}
+	if level >= -1 {
+		c.TerminalTotalDifficulty = z()
+		v := uint64(0)
+		c.ShanghaiTime = &v
+	}
+	return c
+}
+
+var legacyConfigs = map[int]*params.ChainConfig{-3: legacyConfig(-3), -2: legacyConfig(-2), -1: legacyConfig(-1)}
+var levelNames = map[int]string{-3: "Berlin", -2: "London", -1: "Shanghai", 0: "Cancun", 1: "Prague", 2: "Osaka"}
+
 // ---------------------------------------------------------------------------
 // case
 
@@ -390,11 +413,20 @@ func makeTx(t bcase, x txc) *types.Transaction {
 	case 4:
 		auths := make([]types.SetCodeAuthorization, 0)
 		for _, a := range x.auths {
-			sa, err := types.SignSetCode(keyOf(a.key).priv, types.SetCodeAuthorization{ChainID: *uint256.MustFromBig(a.chain), Address: addrOf(a.addr), Nonce: a.nonce})
+			signKey := a.key
+			if a.authority == nil && signKey >= 100 {
+				signKey -= 100
+			}
+			sa, err := types.SignSetCode(keyOf(signKey).priv, types.SetCodeAuthorization{ChainID: *uint256.MustFromBig(a.chain), Address: addrOf(a.addr), Nonce: a.nonce})
 			if err != nil {
 				panic("hxlib: sign authorisation: " + err.Error())
 			}
-			if a.authority == nil {
+			if a.authority == nil && a.key >= 100 {
+				// the other, high-s, signature of the same message (EIP-2: s must be at most n/2)
+				n := crypto.S256().Params().N
+				sa.S = *uint256.MustFromBig(new(big.Int).Sub(n, sa.S.ToBig()))
+				sa.V ^= 1
+			} else if a.authority == nil {
 				sa.R = uint256.Int{} // r = 0: no authority can be recovered
 			}
 			auths = append(auths, sa)
@@ -453,17 +485,29 @@ type budgetExceeded struct{}
 // runBlock runs the block through cmd/evm/internal/t8ntool Prestate.Apply (the code of `evm t8n`),
 // reached in-process through the hook package cmd/evm/verifc26.  skip[i] = true leaves transaction i out
 // (indices of the rejected transactions are reported in terms of the full list).
-func runBlock(t bcase, skip map[int]bool, count bool) (out blockOut) {
+func runBlock(t bcase, skip map[int]bool, count bool) blockOut {
+	return runBlockAt(t, skip, count, t.fork)
+}
+
+// runBlockAt: level 0..2 = the rule set of the case; level < 0 = a rule set before Cancun (block
+// environment without blob gas, beacon root, withdrawals; no base fee before London; no randomness
+// before the merge), used by the SSTORE oracle only.
+func runBlockAt(t bcase, skip map[int]bool, count bool, level int) (out blockOut) {
 	cfg := configs[t.fork]
+	if level < 0 {
+		cfg = legacyConfigs[level]
+	}
 	number := t.env[2].Uint64()
 	tm := t.env[1].Uint64()
 	if number == 0 {
 		panic("hxlib: block number 0")
 	}
 	excess := t.env[7].Uint64()
-	blobFee := eip4844.CalcBlobFee(cfg, &types.Header{Time: tm, ExcessBlobGas: &excess})
-	if blobFee.Cmp(t.env[8]) != 0 {
-		panic(fmt.Sprintf("hxlib: blob base fee of the case (%v) is not CalcBlobFee(excess blob gas) = %v", t.env[8], blobFee))
+	if level >= 0 {
+		blobFee := eip4844.CalcBlobFee(cfg, &types.Header{Time: tm, ExcessBlobGas: &excess})
+		if blobFee.Cmp(t.env[8]) != 0 {
+			panic(fmt.Sprintf("hxlib: blob base fee of the case (%v) is not CalcBlobFee(excess blob gas) = %v", t.env[8], blobFee))
+		}
 	}
 	alloc := types.GenesisAlloc{}
 	for _, a := range t.pre {
@@ -495,6 +539,15 @@ func runBlock(t bcase, skip map[int]bool, count bool) (out blockOut) {
 	}
 	for i, w := range t.wds {
 		env.Withdrawals = append(env.Withdrawals, &types.Withdrawal{Index: uint64(i), Validator: uint64(i), Address: addrOf(w.addr), Amount: w.amount})
+	}
+	if level < 0 {
+		env.ExcessBlobGas, env.ParentBeaconBlockRoot, env.Withdrawals = nil, nil, nil
+		if level < -1 {
+			env.Random = nil
+		}
+		if level < -2 {
+			env.BaseFee = nil
+		}
 	}
 	var txs []*types.Transaction
 	var index []int // position in t.txs of the i-th transaction handed to the tool
@@ -839,6 +892,10 @@ func run(c Sx) Result {
 		res.Obs = observe(t, o)
 	}
 	fails := oracle(t, o)
+	if p, ok := parseSstoreStream(t); ok {
+		fails = append(fails, sstoreOracle(t, p)...)
+		res.Tags = append(res.Tags, "sstore-stream", fmt.Sprintf("sstore-orig%d", p.orig))
+	}
 	if len(fails) > 0 {
 		if len(fails) > 3 {
 			fails = fails[:3]
@@ -893,6 +950,15 @@ func run(c Sx) Result {
 			if a.authority == nil {
 				res.Tags = append(res.Tags, "auth-badsig")
 			}
+			if a.key >= 100 {
+				res.Tags = append(res.Tags, "auth-high-s")
+			}
+			if a.chain.Cmp(big.NewInt(1)) > 0 {
+				res.Tags = append(res.Tags, "auth-wrong-chain")
+			}
+			if a.nonce == ^uint64(0) {
+				res.Tags = append(res.Tags, "auth-nonce-max")
+			}
 			if a.addr.Sign() == 0 {
 				res.Tags = append(res.Tags, "auth-clear")
 			}
@@ -911,6 +977,8 @@ func main() {
 			"insufficient funds, gas below intrinsic / below the EIP-7623 floor, fee cap below base fee, tip above fee cap, sender with code, oversized initcode, " +
 			"gas above the EIP-7825 cap, block gas limit reached, blob hash version / count / fee cap / block blob gas limit), withdrawals, optional beacon root, " +
 			"EIP-7702 authorisation lists (valid, wrong chain id / nonce, invalid signature, authority with code, clearing, self-sponsored, repeated authority) and pre-existing delegations, " +
+			"plus two targeted streams: (a) EIP-7702 probe: a type-4 transaction whose list mixes valid tuples with every rejection reason (wrong chain id, nonce mismatch, nonce 2^64-1, r = 0, high s, authority with code, duplicate authority, authority = sender / recipient / coinbase) followed by code touching every authority and delegation target with BALANCE, EXTCODESIZE, EXTCODEHASH, EXTCODECOPY, CALL, STATICCALL, DELEGATECALL, CALLCODE and SELFDESTRUCT; " +
+			"(b) SSTORE: one transaction writing one slot 2-3 times over all (original, current, new) from {0,X,Y}, with/without SLOAD, access-list entry and gas padding, additionally checked by a Go oracle from EIP-2200/2929/3529 under Berlin, London, Shanghai, Cancun, Prague, Osaka; " +
 			"under Cancun / Prague / Osaka. Calls to precompiles other than identity are not generated (cases reaching one are dropped). " +
 			"Non-trivial: at least one transaction was included; distinct = distinct case line.",
 		Gen:         gen,
